@@ -1301,20 +1301,24 @@ impl ApiEndpointVersions {
                 ApiEndpointVersions::From(earliest),
             ) => u.matches(Some(&earliest)),
 
+            // A non-empty intersection of "from `earliest`" with a from-until
+            // range contains the later of the two starting points.  (Comparing
+            // `earliest < until` alone misses the one-version range
+            // `from_until(A, A)`, which contains A.)
             (
                 ApiEndpointVersions::From(earliest),
-                ApiEndpointVersions::FromUntil(OrderedVersionPair {
-                    earliest: _,
-                    until,
+                r @ ApiEndpointVersions::FromUntil(OrderedVersionPair {
+                    earliest: range_earliest,
+                    until: _,
                 }),
-            ) => earliest < until,
+            ) => r.matches(Some(std::cmp::max(earliest, range_earliest))),
             (
-                ApiEndpointVersions::FromUntil(OrderedVersionPair {
-                    earliest: _,
-                    until,
+                r @ ApiEndpointVersions::FromUntil(OrderedVersionPair {
+                    earliest: range_earliest,
+                    until: _,
                 }),
                 ApiEndpointVersions::From(earliest),
-            ) => earliest < until,
+            ) => r.matches(Some(std::cmp::max(earliest, range_earliest))),
 
             (
                 u @ ApiEndpointVersions::Until(_),
